@@ -145,9 +145,9 @@ enum { T_CLEAN, T_LINE0, T_DAMAGE, T_MUTATED, T_RANDOM, T_TRUNC, T_N };
 static const char *const type_name[T_N] = { "clean", "line0", "damage", "mutated", "random", "truncated" };
 
 enum { D_NONE, D_GARBAGE, D_OVERWRITE, D_TRUNCATE, D_LENGTH, D_FOREIGN, D_ILLEGAL_DU, D_BITFLIP, D_DROP, D_DUP,
-       D_TS_LOST, D_TS_SWAP, D_TS_CC, D_TS_BITS, D_NESTED, D_OVERFULL, D_N };
+       D_TS_LOST, D_TS_SWAP, D_TS_CC, D_TS_BITS, D_NESTED, D_OVERFULL, D_DU_TAIL, D_N };
 static const char *const dmg_name[D_N] = { "none", "garbage", "overwrite", "truncate", "length", "foreign", "illegal-du", "header-bitflip", "drop-packet", "repeat-packet",
-	"ts-lost", "ts-swap", "ts-continuity", "ts-flags", "nested-in-foreign", "overfull-frame" };
+	"ts-lost", "ts-swap", "ts-continuity", "ts-flags", "nested-in-foreign", "overfull-frame", "data-unit-at-packet-end" };
 
 static void insert_item(int at, uint8_t *data, size_t len, int damaged)
 {
@@ -482,6 +482,44 @@ static int apply_damage(struct vf_rng *r, int kind, int v, const struct dg_cfg *
 		}
 		insert_item(l + 1, b, total, 1);
 		snprintf(desc, dl, "VBI PES packet with %d Teletext data units of undefined line number (%zu bytes) inserted after packet %d", units, total, v);
+		break; }
+	case D_DU_TAIL: {
+		/* the last bytes of the PES packet become a data unit of any known (or unknown) id with any length,
+		   ending exactly with the packet - also lengths too short for what the unit is supposed to carry: the
+		   demultiplexer must not look behind the end of the packet (every feed is an exactly sized heap block) */
+		static const uint8_t ids[] = { 0x02, 0x03, 0xC0, 0xC1, 0xC3, 0xC4, 0xC5, 0xC6, 0xB4, 0xB5, 0xB6, 0xFF, 0x00, 0x10 };
+		unsigned size = sent[v].pes_size, k, o;
+		unsigned id = vf_chance(r, 9, 10) ? ids[vf_below(r, sizeof ids)] : vf_below(r, 256);
+		/* lengths around what each kind of unit needs (1 + 42/43 Teletext, 1 + 13 VPS, 1 + 2 WSS and caption, 1 + 3 CPR-1204) */
+		unsigned L = (id == 0x02 || id == 0x03 || id == 0xC0 || id == 0xC1) && vf_chance(r, 1, 2) ? (unsigned)vf_range(r, 0x29, 0x2E)
+			: id == 0xC3 && vf_chance(r, 1, 2) ? (unsigned)vf_range(r, 0x0B, 0x10)
+			: vf_chance(r, 3, 4) ? (unsigned)vf_range(r, 0, 6) : (unsigned)vf_range(r, 0, 0x2E);
+		/* a line number that continues the frame: second field, one of the last lines (else the unit is refused for its line) */
+		unsigned lofp = vf_chance(r, 2, 3) ? (0xC0u | (unsigned)vf_range(r, 20, 23)) : (0xC0u | vf_below(r, 64));
+		uint8_t *q;
+		if (size < 46 + 2 + L + 46) return 0;
+		o = size - 2 - L;
+		{
+			/* the data units in front of it stay whole: the one that reaches into the new unit is replaced by a
+			   stuffing unit that ends where the new unit begins */
+			const struct sent *st = &sent[v];
+			int j;
+			unsigned from = 0, gap;
+			for (j = 0; j < st->n_du; j++) if (st->du_off[j] <= o) from = st->du_off[j];
+			if (from < 46) return 0;
+			gap = o - from;
+			if (gap == 1) { if (L == 0) return 0; L--; o++; gap = 2; }
+			if (gap >= 2) {
+				if (gap - 2 > 255) return 0;
+				q = pes_byte(v, from, c->ts, &it); if (!q) return 0; *q = 0xFF; it->damaged = 1;
+				q = pes_byte(v, from + 1, c->ts, &it); if (!q) return 0; *q = (uint8_t)(gap - 2); it->damaged = 1;
+				for (k = 2; k < gap; k++) { q = pes_byte(v, from + k, c->ts, &it); if (!q) return 0; *q = 0xFF; it->damaged = 1; }
+			}
+		}
+		q = pes_byte(v, o, c->ts, &it); if (!q) return 0; *q = (uint8_t)id; it->damaged = 1;
+		q = pes_byte(v, o + 1, c->ts, &it); if (!q) return 0; *q = (uint8_t)L; it->damaged = 1;
+		for (k = 0; k < L; k++) { q = pes_byte(v, o + 2 + k, c->ts, &it); if (!q) return 0; *q = (uint8_t)(k == 0 ? lofp : vf_below(r, 256)); it->damaged = 1; }
+		snprintf(desc, dl, "the last %u bytes of packet %d replaced by a data unit id 0x%02x with data_unit_length %u", 2 + L, v, id, L);
 		break; }
 	case D_ILLEGAL_DU: {
 		const struct sent *st = &sent[v];
@@ -1057,8 +1095,8 @@ static int run_case(struct vf_rng *r, long idx)
 		if (type == T_DAMAGE) {
 			int v, tries;
 			for (tries = 0; tries < 6 && dmg == D_NONE; tries++) {
-				int kind = c.ts ? (int[]){ D_GARBAGE, D_OVERWRITE, D_TRUNCATE, D_LENGTH, D_FOREIGN, D_ILLEGAL_DU, D_BITFLIP, D_DROP, D_DUP, D_TS_LOST, D_TS_SWAP, D_TS_CC, D_TS_BITS, D_TS_LOST, D_TS_CC }[vf_below(r, 15)]
-						: (int[]){ D_GARBAGE, D_OVERWRITE, D_TRUNCATE, D_LENGTH, D_FOREIGN, D_ILLEGAL_DU, D_BITFLIP, D_DROP, D_DUP, D_GARBAGE, D_TRUNCATE, D_NESTED, D_NESTED, D_OVERFULL }[vf_below(r, 14)];
+				int kind = c.ts ? (int[]){ D_GARBAGE, D_OVERWRITE, D_TRUNCATE, D_LENGTH, D_FOREIGN, D_ILLEGAL_DU, D_BITFLIP, D_DROP, D_DUP, D_TS_LOST, D_TS_SWAP, D_TS_CC, D_TS_BITS, D_TS_LOST, D_TS_CC, D_DU_TAIL, D_DU_TAIL }[vf_below(r, 17)]
+						: (int[]){ D_GARBAGE, D_OVERWRITE, D_TRUNCATE, D_LENGTH, D_FOREIGN, D_ILLEGAL_DU, D_BITFLIP, D_DROP, D_DUP, D_GARBAGE, D_TRUNCATE, D_NESTED, D_NESTED, D_OVERFULL, D_DU_TAIL, D_DU_TAIL }[vf_below(r, 16)];
 				if (n_sent < 5) break;
 				v = vf_range(r, 1, n_sent - 4);
 				sync_risk = apply_damage(r, kind, v, &c, desc, sizeof desc);
